@@ -66,6 +66,10 @@ func c03Parts() (prefixes [][]gen.Op, kinds []string, rights []*gen.Pipeline, co
 		{eq(&gen.Paren{X: lr("$left", "k")}, lr("$right", "k")), &gen.Binary{Op: ">=", X: lr("$right", "y"), Y: lr("$left", "x")}},
 		{gen.Col("k"), &gen.Binary{Op: ">", X: lr("$right", "y"), Y: num("1")}},
 		{&gen.Binary{Op: ">", X: lr("$left", "x"), Y: num("1")}, gen.Col("k")},
+		// an `and` group that mentions both sides, before / between other conditions
+		{&gen.Binary{Op: "and", X: eq(lr("$left", "k"), lr("$right", "k")), Y: &gen.Binary{Op: "<=", X: lr("$left", "x"), Y: lr("$right", "y")}}, &gen.Binary{Op: "!=", X: lr("$right", "y"), Y: num("2")}},
+		{&gen.Paren{X: &gen.Binary{Op: "and", X: eq(lr("$left", "x"), lr("$right", "y")), Y: &gen.Binary{Op: ">", X: lr("$right", "y"), Y: num("0")}}}, gen.Col("k"), &gen.Binary{Op: ">", X: lr("$left", "x"), Y: num("1")}},
+		{gen.Col("k"), &gen.Binary{Op: "or", X: &gen.Binary{Op: "<", X: lr("$left", "x"), Y: lr("$right", "y")}, Y: eq(lr("$left", "x"), num("2"))}, &gen.Binary{Op: ">=", X: lr("$right", "y"), Y: num("1")}},
 	}
 	suffixes = [][]gen.Op{
 		nil,
@@ -193,6 +197,13 @@ func c03Main(r *run.Runner) {
 		"L | where x > 0 | join kind=inner (R) on k | project x, y | where x > 0 | join kind=leftouter (C | project w) on $left.x == $right.w | take 1",
 		"L | where x > 0 | join kind=innerunique (R) on k | project x, y | join kind=leftouter (C | project w) on $left.y == $right.w | limit 1",
 		"L | extend z = x | join kind=inner (R | project rk = k, y) on $left.k == $right.rk | join kind=leftouter (C | project ck = k, w) on $left.k == $right.ck | take 1 | project x, y, w",
+		// a named join result that is limited / sorted / filtered afterwards and read again in full by a later right-hand side
+		"L | join kind=inner (R | project rk = k, y) on $left.k == $right.rk | as X | top 1 by y | project x, y | join kind=inner (X | project x2 = x, y2 = y) on $left.x == $right.x2 | project x, y, y2 | sort by x, y, y2",
+		"L | join kind=leftouter (R | project rk = k, y) on $left.k == $right.rk | as X | take 1 | project x | join kind=inner (X | project x2 = x, y2 = y) on $left.x == $right.x2 | count",
+		"L | join (R | project rk = k, y) on $left.k == $right.rk | as X | sort by y asc | take 1 | project k, y | join kind=leftouter (X | where y > 1 | project k3 = k, y3 = y) on $left.k == $right.k3 | project y, y3 | sort by y, y3",
+		"L | where x > 0 | as X | where x > 1 | project k, x | join kind=inner (X | project k2 = k, x2 = x) on $left.k == $right.k2 | project x, x2 | sort by x, x2",
+		"L | join kind=inner (R | project rk = k, y) on $left.k == $right.rk | as X | where y > 1 | summarize n = count() by x | join kind=inner (X | project x2 = x, y2 = y) on $left.x == $right.x2 | project n, y2 | sort by n, y2",
+		"L | as X | join kind=inner (R | project rk = k, y) on $left.k == $right.rk | as Y | take 1 | project y | join kind=inner (Y | project y2 = y, x2 = x) on $left.y == $right.y2 | join kind=leftouter (X | project x3 = x) on $left.x2 == $right.x3 | count",
 	}
 	r.Sweep("coinciding-names", int64(len(coincide)), func(w *run.Worker, item int64) {
 		if states[w.ID] == nil {
